@@ -145,6 +145,7 @@ PROPS["C20"] = {
         ("contracts.wordcode", "xdis.wordcode:findlabels"),
         ("contracts.wordcode", "xdis.wordcode:findlabels/3.11+"),
     ],
+    "bounded": [("ground.std_diff", "check")],
     "assumptions": [],
 }
 
@@ -269,7 +270,7 @@ _T = {
  "C10": ("Each value reader of the unmarshaller (int32, int64, long digits, the seven length-prefixed string kinds, unicode, back references, interned-string references, small/large tuples, sets, frozensets) is proved, for all inputs, to read the field widths/signs the format defines, to consume exactly its encoding, to read its children in order with bytes_for_s passed on, and to keep the reference-table discipline (slot index = references recorded before, reserved before the children, filled with the finished object).",
          "list/dict/float-text/complex readers, UTF-8 decoding and the equality of decoded *contents* are covered by the bounded differential against the real marshal (host marshal values, hand-assembled encodings, code objects of 9 interpreters)."),
  "C20": ("The std wrappers are proved to be plumbing into verified code: _StdApi.get_instructions / Bytecode.get_instructions invoke the stream driver exactly once with the API object's own opcode table, the code's own byte string and tables, the line starts computed for that code and line_offset = first_line - co_firstlineno; _StdApi.findlabels returns the CPython label set; the driver get_instructions_bytes is proved (all tables: words for 3.6+, 1/3-byte instructions before) to tile the code with CPython's globally folded operands and to pass the decoder's is_jump_target / starts_line (incl. the first_line shift) through; the decoder and label finders it relies on are proved per table.",
-         "object coercion (functions, methods, generators, source strings -> code) and module-level tables are compared with the host's dis only by the bounded host differential; code objects with an exception table take the exception_entries path that is outside the driver's contract; dict(findlinestarts(..)) is an abstract map tied to its source sequence."),
+         "object coercion (functions, methods, generators, coroutines, classes, source strings -> code), first_line, argval and the module-level tables are compared with the host's own dis under each of the six hosts only by a bounded differential (ground/std_diff.py; known finding: arg of WITH_EXCEPT_START on 3.13); code objects with an exception table take the exception_entries path that is outside the driver's contract; dict(findlinestarts(..)) is an abstract map tied to its source sequence."),
  "C16": ("codeType2Portable, Code38/Code310/Code311.to_native and Code13.replace are proved, for each host 3.8-3.13 (attribute set and positional constructor order of types.CodeType taken from the real interpreters), to map every field to the same field (in particular the host's real line table and exception table), to choose the portable class of the host's version, and to leave the original object unchanged.",
          "field values are abstract tokens (identity + type): a plumbing proof; types.CodeType is an external constructor modelled by its positional order; a frame condition (no attribute added to the portable object) is part of the contract."),
  "C19": ("All three line-table encoders behind freeze() are proved with loop invariants against ghost transcriptions of CPython's readers (pyvc HAcc: the byte string under construction is tracked as the state the reader would be in after reading it): Code3.encode_lineno_tab (3.0-3.9; unsigned reader of 3.0-3.5, signed reader of 3.6-3.9, with and without decreasing lines), Code15.encode_lineno_tab (1.5-2.7) and Code310.encode_lineno_tab (3.10 range format, including its nested emitter function and the 'no line' prefix), for every table of strictly increasing offsets whose consecutive lines differ, every first line, every gap size: every appended pair is two bytes in 0..255; whenever the reader would yield a line start it is exactly the table entry it must be; after entry k it has yielded exactly the first k (3.10: k+1) entries and stands at the right offset and line; the 3.10 ranges end at len(co_code). freeze()'s dict/list normalisation and the end-to-end result are additionally round-tripped through xdis's and the matching CPython's decoders (2.7, 3.7-3.10): bounded.",
